@@ -15,7 +15,7 @@ _P["rule"] = (
     "— GenDirect with each single-output mask, REDUCEDLENGTH|GEODESICSCALE, ALL, ALL|LONG_UNROLL; the 6 Direct / 7 ArcDirect overloads; Line, "
     "DirectLine / ArcDirectLine with the 6 Position / 7 ArcPosition overloads and GenPosition with each mask; the line constructor; GenDirectLine; "
     "lines constructed with a single capability (e.g. GEODESICSCALE only, what CassiniSoldner does) — each compared with the oracle and with "
-    "GenDirect(ALL); every fourth segment through tools/GeodSolve −f run in-process. Point pairs (|f| ≤ 0.02, 0.5, −1): the 7 Inverse overloads and "
+    "GenDirect(ALL); every fourth segment through tools/GeodSolve −f, every fourth point pair through GeodSolve −i −f (with and without −E), run in-process. Point pairs (|f| ≤ 0.02, 0.5, −1): the 7 Inverse overloads and "
     "GenInverse with each single-output mask against the full overload, InverseLine at its third point, reversal, addition rules at 37 % of the "
     "segment, triangle sums, EllipsoidArea. Model correspondences: lineinit/genpos (series, |f| ≤ 0.2), xgeodconst/xlineinit/xgenpos (exact line, every "
     "f), lengths. non-trivial = finite values compared with the oracle; distinct = distinct (op, leading argument bits)")
